@@ -255,7 +255,14 @@ class World:
             cls = C['classes'].get(target)
             return getattr(cls, name, None) if cls is not None else None
         if how in ('meth', 'mut'):
-            return getattr(recv, name, None)
+            # (after minimisation the receiver may be an object of another class on which this
+            #  name is a property; evaluating it here must not escape the harness)
+            if isinstance(getattr(type(recv), name, None), property):
+                return None
+            try:
+                return getattr(recv, name, None)
+            except Exception:                                        # noqa: BLE001
+                return None
         if how == 'prop':
             if not hasattr(type(recv), name):
                 return None
